@@ -509,9 +509,26 @@ def witness_k4(base):
         shutil.rmtree(sim.base, ignore_errors=True)
 
 
+def witness_k4(base):
+    """rebase --root: no merge base between the old and the new history, nothing is rewritten"""
+    sim = _w(base, "k4")
+    try:
+        sim.init({"f.txt": "a\nb\nc\n"})
+        _ai(sim, "s1", "f.txt", ["a", "AI1", "AI2", "b", "c"])
+        _commit(sim, "ai")
+        before = sim.blame("f.txt")
+        sim.clock += 100
+        rc = sim.git("rebase", "--root", "--no-ff")[0]
+        return rc == 0 and bool(before) and not sim.blame("f.txt")
+    finally:
+        shutil.rmtree(sim.base, ignore_errors=True)
+
+
 KNOWN = [
     ("C02-K1 stash pop after a commit inserted lines above the stashed AI lines: line numbers are restored verbatim", witness_k1),
     ("C02-K2 amend after a person inserted a line above (or between) the amended commit's AI lines: the old note's line numbers are not moved", witness_k2),
+    ("C02-K4 `git rebase --root`: no merge base between the old and the new history, the post hook gives up and every "
+     "rebased commit loses its note", witness_k4),
     ("C02-K3 content replay of rebase/cherry-pick (upstream changed the same file): human lines committed directly below AI lines are recoloured AI", witness_k3),
 ]
 
